@@ -5,7 +5,15 @@ HERE = os.path.dirname(os.path.abspath(__file__))
 PY = '/venv/bin/python'
 CHECKS = {}   # filled by register()
 
+HISTORY_A = ('; one case in four is judged AFTER a history of aborted subscriptions of the same observable (disposed mid-stream, source error, '
+             'raising consumer, take(n) peek - DESIGN.md E6b)')
+HISTORY_B = ('; every observable is subscribed, peeked at and abandoned, given a raising consumer, and subscribed again - both full subscriptions must '
+             'deliver the same events (DESIGN.md E6b)')
+
+
 def register(pid, category, text, note, technique, design_ref):
+    n = int(pid[1:])
+    technique += HISTORY_A if n <= 11 else HISTORY_B if n >= 15 else ''
     CHECKS[pid] = dict(category=category, text=text, note=note, technique=technique, design_ref=design_ref)
 
 from manifest_table import TABLE, NOT_BUILT_REASON
